@@ -212,6 +212,14 @@ func genChainShape(r *rand.Rand, shape string) *gpbft.ECChain {
 	}
 }
 
+// randChainShape: mostly small shapes, a boundary-size one now and then.
+func randChainShape(r *rand.Rand) string {
+	if r.Intn(40) == 0 {
+		return chainShapes[r.Intn(len(chainShapes))]
+	}
+	return []string{"n0", "n1/k1", "n2", "n3/k0", "rand"}[r.Intn(5)]
+}
+
 func genSupp(r *rand.Rand) gpbft.SupplementalData {
 	return gpbft.SupplementalData{Commitments: rand32(r, r.Intn(4)), PowerTable: randCid(r)}
 }
@@ -303,7 +311,7 @@ func genGMessage(r *rand.Rand, shape string) *gpbft.GMessage {
 		m.Justification.Signature = randBytes(r, 96)
 	default:
 		m.Vote = genPayload(r, "rand")
-		m.Justification = genJustification(r, chainShapes[r.Intn(len(chainShapes))])
+		m.Justification = genJustification(r, randChainShape(r))
 	}
 	return m
 }
@@ -413,7 +421,7 @@ func genCert(r *rand.Rand, shape string) *certs.FinalityCertificate {
 		fc.ECChain = genChainShape(r, "n1/k1")
 		fc.Signature = randBytes(r, cbg.ByteArrayMaxLen)
 	default:
-		fc.ECChain = genChainShape(r, chainShapes[r.Intn(len(chainShapes))])
+		fc.ECChain = genChainShape(r, randChainShape(r))
 		fc.PowerTableDelta = genDiff(r, "rand")
 	}
 	return fc
@@ -599,12 +607,17 @@ func reg[T any, PT interface {
 	}
 }
 
-var registry []*typeDesc
+var (
+	registry     []*typeDesc
+	registryOnce sync.Once
+)
 
 func types() []*typeDesc {
-	if registry != nil {
-		return registry
-	}
+	registryOnce.Do(buildRegistry)
+	return registry
+}
+
+func buildRegistry() {
 	registry = []*typeDesc{
 		reg("gpbft.TipSet", []string{"k0", "k1", "k759", "k760", "rand"}, []string{"k1", "rand"},
 			func(r *rand.Rand, s string) *gpbft.TipSet { return genTipSet(r, keyLenFor(r, s)) }, eqTipSet),
@@ -692,7 +705,6 @@ func types() []*typeDesc {
 					eqEntries(&a.InitialPowerTable, &b.InitialPowerTable)
 			}),
 	}
-	return registry
 }
 
 func typeByName(n string) *typeDesc {
